@@ -38,25 +38,35 @@ struct Found {
 }
 
 fn networks(tier: &str) -> Vec<Inst> {
-    let ntrips = if tier == "thorough" { 4 } else { 2 };
     let mut out = vec![];
-    for shunt in [0u8, 1, 3] {
-        for forbid in [0u8, 1] {
-            for dh in [0u8, 1, 2, 3] {
-                for maint in [0u8, 1, 4] {
-                    let mut cfg = BASE0;
-                    cfg[D_SHUNT] = shunt;
-                    cfg[D_FORBID] = forbid;
-                    cfg[D_DH] = dh;
-                    cfg[D_MAINT] = maint;
-                    // demand is irrelevant for tours: one demand level
-                    let cat: Vec<Trip> = catalogue(&cfg).into_iter().filter(|t| t.dem == 1).collect();
-                    for trips in trip_multisets(&cat, ntrips) {
-                        out.push(Inst { cfg, trips });
+    let mut push = |shunts: &[u8], forbids: &[u8], dhs: &[u8], maints: &[u8], sizes: std::ops::RangeInclusive<usize>| {
+        for &shunt in shunts {
+            for &forbid in forbids {
+                for &dh in dhs {
+                    for &maint in maints {
+                        let mut cfg = BASE0;
+                        cfg[D_SHUNT] = shunt;
+                        cfg[D_FORBID] = forbid;
+                        cfg[D_DH] = dh;
+                        cfg[D_MAINT] = maint;
+                        // demand is irrelevant for tours: one demand level
+                        let cat: Vec<Trip> = catalogue(&cfg).into_iter().filter(|t| t.dem == 1).collect();
+                        for trips in trip_multisets(&cat, *sizes.end()) {
+                            if trips.len() >= *sizes.start() {
+                                out.push(Inst { cfg, trips });
+                            }
+                        }
                     }
                 }
             }
         }
+    };
+    if tier == "thorough" {
+        push(&[0, 1, 3, 4], &[0, 1], &[0, 1, 2, 3, 4], &[0, 1, 4], 1..=4);
+    } else {
+        push(&[0, 1, 3], &[0, 1], &[0, 1, 2, 3], &[0, 1, 4], 1..=2);
+        // three trips (three-node dummy tours, non-transitive chains) on a reduced configuration grid
+        push(&[0, 3], &[0, 1], &[0, 2, 3], &[0, 4], 3..=3);
     }
     out
 }
@@ -337,7 +347,7 @@ pub fn check(tier: &str) -> i32 {
     report.cov("distinct_nontrivial", json!(g("insertions_dropping_nodes") + g("removals_refused")));
     report.cov("detail", cov);
     report.cov("violations_by_clause", json!(by_clause));
-    report.cov("rule", json!("Reference model = plain node lists + the documented reachability rule (spec). Enumerated: every network of the sub-grid (shunting {0,0 | 300,0 | 600,600} x forbid x 4 dead-head matrices x {no slot, slot before the trips, slot tying with the trips} x all trip multisets up to the tier's size over 2 directions x 4 departure slots), every valid real tour (chain of <=3 activities x every start/end depot pair, obtained through Schedule) and dummy tour, every path (chain of <=3, +-start depot, +-end depot) and every segment containing an activity. States = tours, transitions = edit calls compared with the reference. Non-trivial = insertions that drop nodes + removals that must be refused."));
+    report.cov("rule", json!("Reference model = plain node lists + the documented reachability rule (spec). Enumerated: every network of the sub-grid (quick: shunting {(0,0), (300,0), (600,600)} x forbid x 4 dead-head matrices x {no slot, slot before the trips, slot tying with the trips} x all trip multisets of size <= 2, plus size-3 multisets on the reduced grid shunting {(0,0), (600,600)} x forbid x {symmetric, slow, non-metric} x {no slot, tying slot}; thorough: 4 shunting models x forbid x 5 matrices x 3 slot variants x multisets of size <= 4; trips over 2 directions x 4 departure slots), every valid real tour (chain of <=3 activities x every start/end depot pair, obtained through Schedule) and dummy tour, every path (chain of <=3, +-start depot, +-end depot) and every segment containing an activity. States = tours, transitions = edit calls compared with the reference. Non-trivial = insertions that drop nodes + removals that must be refused."));
     report.cov("exhaustive", json!(true));
     report.cov("samples", json!([{"network": "shunting (0,0), symmetric dead-heads, trips L0->L1 08:00 and L1->L0 09:00", "tour": ["s_depot_L0", "t0_s0", "e_depot_L1"], "path": ["t1_s0"], "expected": ["s_depot_L0", "t0_s0", "t1_s0", "e_depot_L1"]}]));
     report.assume("the statement's 'randomly beyond the bound' part is not performed (sampling is outside this family); the claim is the exhaustive part");
